@@ -674,7 +674,7 @@ def run_epoch_forms(x):
     return out
 
 
-KNOWN_BYPASS_FORM = "replace_tzinfo_none"
+REPLACE_NONE_FORM = "replace_tzinfo_none"
 
 # ------------------------------------------------------------------------------------------ OBSERVED facts
 # Each fact below is derived from what the real functions DO on purpose-built probes.  The ast recognisers above are
@@ -902,13 +902,13 @@ def observe_new():
                 for fold in (0, 1):
                     for name, got, want in run_forms(w, tz, fold):
                         naive = isinstance(got, _pydt.datetime) and got.tzinfo is None
-                        if name == KNOWN_BYPASS_FORM:
+                        if name == REPLACE_NONE_FORM:
+                            # recorded separately as well (pre-fix witness: CPython <= 3.12 builds the result in C)
                             b = type(got) is ft.datetime and naive
                             if bypass is None:
                                 bypass = b
                             elif bypass != b:
-                                raise Unsupported("replace(tzinfo=None) sometimes calls the constructor and sometimes not")
-                            continue
+                                raise Unsupported("replace(tzinfo=None) sometimes yields a naive value and sometimes not")
                         if not isinstance(got, _pydt.datetime) or (type(got) is ft.datetime and _obs(got) != want) or \
                                 (naive and type(got) is ft.datetime):
                             keeps["naive_utc"] = False
@@ -1212,8 +1212,8 @@ def gen_time():
     out += "Definition gen_new_naive_rule : string := %s.\n" % cstr(naive_rule)
     out += "Definition gen_new_text_rule : string := %s.\n" % cstr(text_rule)
     out += "Definition gen_new_epoch_rule : string := %s.\n" % cstr(epoch_rule)
-    out += "(* probe: replace(tzinfo=None) on a value of the field type yields a NAIVE value of the field type (the interpreter\n"
-    out += "   builds the result without calling datetime.__new__) *)\n"
+    out += "(* probe: does replace(tzinfo=None) on a value of the field type yield a NAIVE value of the field type?  (it did before\n"
+    out += "   the field type overrode replace(): CPython <= 3.12 builds the result in C without calling datetime.__new__) *)\n"
     out += "Definition gen_replace_none_bypasses_constructor : bool := %s.\n" % cbool(bypass)
     out += "(* probe of cls.fromisoformat on this interpreter: an offset of less than one second is read as UTC *)\n"
     out += "Definition gen_fromiso_drops_subsecond_offset : bool := %s.\n" % cbool(quirk)
